@@ -2259,8 +2259,9 @@ impl<'a> UserModel<'a> {
             old_value: self.get_locale(),
             new_value: locale.to_string(),
         }];
+        self.model.set_locale(locale)?;
         self.push_diff_list(diff_list);
-        self.model.set_locale(locale)
+        Ok(())
     }
 
     /// Gets the timezone of the model
